@@ -1,6 +1,7 @@
 ---- MODULE MC_Prt ----
 (* Bounded instance for C10 (and the layer-count clause of C20). *)
-EXTENDS Prt
+EXTENDS Prt, Rand
+CONSTANTS Seed, NRand
 VARIABLES done
 Pal(k) == [i \in 1..256 |-> <<(i + k) % 256, (2 * i) % 256, (510 - i) % 256, k % 256>>]
 L(k) == <<k % 256, 0, 7, k % 256, 1, 0, 255, 255>>
@@ -13,6 +14,22 @@ Emit(id, steps) == PrintT("S|" \o ToJson([id |-> id, steps |-> steps]))
 RT(v, hdr) == [op |-> "prt_roundtrip", input |-> EncodeWith(v, hdr), canon |-> Encode(v), value |-> v]
 WriteCase(v) == [op |-> "prt_write", value |-> v, expect |-> IF RulesHold(v) THEN "ok" ELSE "refuse", canon |-> IF RulesHold(v) THEN Encode(v) ELSE <<>>]
 FrameSets == << <<>>, << F(0,0,0,0) >>, << F(1,1,0,0), F(2,0,1,0) >>, << F(1,1,1,0), F(0,1,1,0) >>, << F(127,0,0,0) >> >>
+\* ---- seeded random PRT values that satisfy the cross-field rules: every byte of palettes, layers, unknown containers arbitrary;
+\*      frames with every combination of the two optional-data flags, 0..5 layers (a few with 127), optional bytes non-zero
+RS(r) == Seed * 401 + r
+RB(r, st, i) == Below(RS(r), st, i, 256)
+RPal(r, k) == [i \in 1..256 |-> <<RB(r, 10 + k, i), RB(r, 20 + k, i), RB(r, 30 + k, i), RB(r, 40 + k, i)>>]
+RImg(r, i, np) == LET w == Below(RS(r), 50, i, 70) IN [scan |-> RoundUp4(w), off |-> Below(RS(r), 51, i, 60000), h |-> Below(RS(r), 52, i, 50), w |-> w,
+                                                        type |-> Below(RS(r), 53, i, 256), pal |-> Below(RS(r), 54, i, np)]
+RFrame(r, a, f) == LET n == IF Below(RS(r), 60 + a, f, 9) = 0 THEN 127 ELSE Below(RS(r), 61 + a, f, 6)  o1 == Below(RS(r), 62 + a, f, 2)  o2 == Below(RS(r), 63 + a, f, 2) IN
+  [n1 |-> n, o1 |-> o1, n2 |-> Below(RS(r), 64 + a, f, 128), o2 |-> o2, opt |-> <<1 + (RB(r, 65, f) % 255), 1 + (RB(r, 66, f) % 255), 1 + (RB(r, 67, f) % 255), 1 + (RB(r, 68, f) % 255)>>,
+   layers |-> [k \in 1..n |-> [j \in 1..8 |-> RB(r, 70 + a, f * 131 + k * 8 + j)]]]
+RAnim(r, a) == [u1 |-> [j \in 1..4 |-> RB(r, 80, a * 4 + j)], rect |-> [j \in 1..16 |-> RB(r, 81, a * 16 + j)], disp |-> [j \in 1..8 |-> RB(r, 82, a * 8 + j)],
+                u2 |-> [j \in 1..4 |-> RB(r, 83, a * 4 + j)], frames |-> [f \in 1..Below(RS(r), 84, a, 4) |-> RFrame(r, a, f)],
+                unk |-> [k \in 1..Below(RS(r), 85, a, 3) |-> [j \in 1..16 |-> RB(r, 86, a * 50 + k * 16 + j)]]]
+RValue(r) == LET np == Below(RS(r), 1, 0, 3) IN
+  [palettes |-> [k \in 1..np |-> RPal(r, k)], images |-> IF np = 0 THEN <<>> ELSE [i \in 1..Below(RS(r), 2, 0, 5) |-> RImg(r, i, np)],
+   anims |-> [a \in 1..Below(RS(r), 3, 0, 4) |-> RAnim(r, a)], unknownCount |-> Below(RS(r), 4, 0, 60000)]
 Init == done = FALSE
 Next == /\ ~done /\ done' = TRUE
         /\ \A np \in 0..2 : \A ni \in 0..2 : \A fs \in 1..Len(FrameSets) : \A na \in 0..2 : \A nunk \in 0..2 :
@@ -22,6 +39,9 @@ Next == /\ ~done /\ done' = TRUE
                  v == V(np, imgs, anims)
              IN /\ Assert(RulesHold(v), "rules")
                 /\ Emit(<<"rt", np, ni, fs, na, nunk>>, << RT(v, PaletteHeaderCanon), RT(v, PaletteHeaderWith(6, 9, 1022)), WriteCase(v) >>)
+        /\ \A r \in 1..NRand : LET v == RValue(r) IN
+             /\ Assert(RulesHold(v), "random value satisfies the rules")
+             /\ Emit(<<"rand", Seed, r>>, << RT(v, PaletteHeaderCanon), WriteCase(v) >>)
         \* rule violations must be refused by the writer: wrong scan line, palette index out of range, layer list vs count
         /\ Emit(<<"bad-scan">>, << WriteCase(V(1, << Img(5, FALSE, 0) >>, <<>>)) >>)
         /\ Emit(<<"bad-pal">>, << WriteCase(V(1, << Img(5, TRUE, 1) >>, <<>>)), WriteCase(V(0, << Img(5, TRUE, 0) >>, <<>>)) >>)
